@@ -393,6 +393,9 @@ func (c02) Run(plan interface{}, schedSeed uint64, replay []simrt.Choice, lenien
 			v.Violate("twin", "second connection disturbed", "a second connection receiving [RETURNSTATUS DONE(more) %d x RETURNSTATUS DONE(more) DONE(final)] at the same time got %d packages (%d expected) %s", twinStatuses, got.TwinPkgs, 4+twinStatuses, got.TwinErr)
 		}
 	}
+	for _, ch := range got.Changed {
+		v.Violate("aliasing", "a delivered package changed afterwards", "%s (cuts %v, read mode %s, entries %v)", ch, p.Cuts, p.ReadMode, p.Entries)
+	}
 	want, have := pkgsOnly(base.Recs), pkgsOnly(got.Recs)
 	werr, herr := errsOnly(base.Recs), errsOnly(got.Recs)
 	if len(herr) > len(werr) {
